@@ -462,9 +462,19 @@ func (c *Ctx) instantiatedQuery(goalNeg string, extra []string) (string, bool) {
 	for g := range ground {
 		gl = append(gl, g)
 	}
-	sort.Strings(gl)
-	if len(gl) > 12 {
-		gl = gl[:12]
+	// simple terms (named constants) first
+	sort.Slice(gl, func(i, j int) bool {
+		ai, aj := strings.HasPrefix(gl[i], "("), strings.HasPrefix(gl[j], "(")
+		if ai != aj {
+			return !ai
+		}
+		if len(gl[i]) != len(gl[j]) {
+			return len(gl[i]) < len(gl[j])
+		}
+		return gl[i] < gl[j]
+	})
+	if len(gl) > 10 {
+		gl = gl[:10]
 	}
 	seen := map[string]bool{}
 	for _, k := range cands[sortBV64] {
@@ -478,7 +488,7 @@ func (c *Ctx) instantiatedQuery(goalNeg string, extra []string) (string, bool) {
 	// two rounds: existentials assumed inside instances introduce new skolems, which are
 	// candidates for the goal's universals and for a second round over the assumptions
 	var body strings.Builder
-	budget := 600
+	budget := 2500
 	round := func() {
 		for _, p := range parsed {
 			if !containsQuant(p) {
@@ -509,7 +519,7 @@ func (c *Ctx) instantiatedQuery(goalNeg string, extra []string) (string, bool) {
 		}
 	}
 	if grew {
-		budget += 600
+		budget += 2500
 		round()
 	}
 	// universals left in the (skolemised, asserted) negated goal are instantiated too:
